@@ -9,6 +9,9 @@ PROPS["C14"] = dict(
          "the depth-3(4) pass of the exhaustive unit adds windows of every length 0..cap+1 with F=1 and room for a full buffer behind, two random ReadN calls in five (one in two in the shapes unit, one in three in the independent unit) draw F 0..3 and B 0..cap+2 with lengths leaning to the short ones incl. 0; "
          "the count must be min(len(dst),Len) and never exceed len(dst), and the canary elements of the scratch outside the window must stay untouched; a shapes unit runs the same contract with other element types: strings and structs whose text looks like a format directive, and a "
          "zero-size element type with capacities up to MaxInt-1 (which only such a type can have; there the backing array exceeds 2^32 slots, so the Skip/At/ReadN arguments congruent to small values modulo 2^16, 2^31, 2^32 - systematic lists and one random argument in six, ReadN destinations of any length since they cost nothing - lie inside the array although out of range); "
+         "the same unit also runs element types that cannot be compared with == - []byte, map, func, a struct with a slice field, an array of slices (values incl. the nil/zero value and empty slices; the harness tracks their identity through the slice header, the map header or the serial number a func returns) - "
+         "and the interface element types any and error whose values are the nil interface (the zero value of V, a legal element), typed nils (nil pointer, nil map), uncomparable dynamic values ([]byte) and ordinary non-nil values incl. the sentinels io.EOF and ErrExhausted themselves: "
+         "systematic lists make every kind of value meet the full buffer of every capacity 0..3 and travel through it, random lists on capacities 0..6 mix them (classes element_shape:<type>:<kind>_stored / _written_to_full_buffer / _returned); ReadN must also leave the tail of its window beyond the count untouched; "
          "an independent unit lets 2..8 goroutines work at the same time, each through families of its own private buffers (never shared; capacities 0..5000, a family = the same op list on capacities c..c+span-1, most lists first fill to one short of / exactly / beyond the brim; element shapes mixed), every buffer against the model - independent buffers must not interact through package state (a fatal runtime error is attributed by the driver as process-crash); non-trivial = some op spanned the wrap point of the backing array, or Write hit Len==Cap, "
          "or Read hit empty; distinct = FNV hash of (capacity, op list)",
     assumptions=["slice model of a bounded FIFO written from the RingBuffer interface comments and the C14 statement",
